@@ -1365,6 +1365,14 @@ def get_verifier(dataType, name, new_name,
                 raise ValueError(new_msg(f"object of IntegerType out of range, got: {obj}"))
 
         verifier = verify_integer
+    elif isinstance(dataType, LongType):
+        def verify_long(obj):
+            assert_acceptable_types(obj)
+            verify_acceptable_types(obj)
+            if obj < -9223372036854775808 or obj > 9223372036854775807:
+                raise ValueError(new_msg(f"object of LongType out of range, got: {obj}"))
+
+        verifier = verify_long
     elif isinstance(dataType, ArrayType):
         verifier = get_array_verifier(dataType, name,
                                       assert_acceptable_types, verify_acceptable_types)
